@@ -248,10 +248,24 @@ func genParams(r *rng, cs *c17Case, small, big int) {
 // Starts and ends on the x.5 s grid of the observation points; the storage is healthy (sched kind).
 func holdEpisode(r *rng, cs *c17Case, n int, ticks int) {
 	cs.Script = append(cs.Script, op{T: "hold"}, op{T: "sleep", Ms: 1000, M: "round"}, op{T: "obs"})
+	var small []int // objects below the batching threshold (payload classes 200.. / 900..)
+	for i, p := range cs.Payload {
+		if p < 500 {
+			small = append(small, i)
+		}
+	}
+	onlySmall := r.chance(1, 2) // the batching rules are about small objects: often let only such objects arrive
 	for k := 1; k < ticks; k++ {
 		np := r.intn(4)
+		if k == 1 && np == 0 {
+			np = 1 + r.intn(3)
+		}
 		for j := 0; j < np; j++ {
-			cs.Script = append(cs.Script, op{T: "put", O: r.intn(n)})
+			o := r.intn(n)
+			if onlySmall && len(small) > 0 {
+				o = small[r.intn(len(small))]
+			}
+			cs.Script = append(cs.Script, op{T: "put", O: o})
 		}
 		if r.chance(1, 8) {
 			cs.Script = append(cs.Script, op{T: "del", O: r.intn(n)})
@@ -308,12 +322,18 @@ func genSched(r *rng, id int) *c17Case {
 	if r.chance(1, 5) {
 		nbig = n
 	}
+	if holdRound >= 0 && nbig > n-2 {
+		nbig = n - 2
+	}
 	small, big := 200, 900
 	cs.Payload = distinctPayloads(r, n, small, big, nbig)
 	genParams(r, cs, small, big)
 	rounds := 1 + r.intn(3)
 	if holdRound >= 0 {
 		holdRound = r.intn(rounds)
+		if r.chance(1, 3) {
+			cs.Cnt = 128 // batches closed by the end of the round / size only
+		}
 	}
 	cs.Script = append(cs.Script, op{T: "sleep", Ms: 500})
 	for k := 0; k < rounds; k++ {
@@ -402,7 +422,12 @@ func genProp(r *rng, id int) *c17Case {
 				cs.Script = append(cs.Script, op{T: "put", O: r.intn(n)})
 			}
 		}
-		switch r.intn(4) {
+		holdPhase := r.chance(2, 5)
+		failKind := r.intn(4)
+		if holdPhase && r.chance(2, 3) {
+			failKind = 3 // mostly a healthy storage that is merely slow: rounds go on instead of the error back-off
+		}
+		switch failKind {
 		case 0:
 			cs.Script = append(cs.Script, op{T: "failall"})
 		case 1:
@@ -414,13 +439,24 @@ func genProp(r *rng, id int) *c17Case {
 			}
 			cs.Script = append(cs.Script, op{T: "failseq", Os: fsq})
 		}
-		if r.chance(2, 5) {
+		if holdPhase {
 			// the main storage blocks for a few ticks while objects keep coming (rounds begin with batches in flight),
 			// then answers according to the policy of that moment
 			cs.Script = append(cs.Script, op{T: "hold"}, op{T: "sleep", Ms: 500 + r.intn(2)*1000}, op{T: "obs"})
+			var smallObjs []int
+			for i, p := range cs.Payload {
+				if p < 500 {
+					smallObjs = append(smallObjs, i)
+				}
+			}
+			onlySmall := r.chance(1, 2) && len(smallObjs) > 0
 			for j := 0; j < 1+r.intn(2); j++ {
 				for i := 0; i < 1+r.intn(3); i++ {
-					cs.Script = append(cs.Script, op{T: "put", O: r.intn(n)})
+					o := r.intn(n)
+					if onlySmall {
+						o = smallObjs[r.intn(len(smallObjs))]
+					}
+					cs.Script = append(cs.Script, op{T: "put", O: o})
 				}
 				cs.Script = append(cs.Script, op{T: "sleep", Ms: 1000 + r.intn(2)*1000}, op{T: "obs"})
 			}
